@@ -48,6 +48,10 @@ var impls = map[string]func(string) string{
 	"lfs.read":        implLfsRead,
 	"lfs.clean":       implLfsClean,
 	"lfs.sort":        implLfsSort,
+	"tarfs.mode":      implTarfsMode,
+	"tarfs.read":      implTarfsRead,
+	"tarfs.tar":       implTarfsTar,
+	"tarfs.write":     implTarfsWrite,
 }
 
 type replayFile struct {
